@@ -35,6 +35,9 @@ Next == \/ sc.stage = 0 /\ \E sh \in Shapes, p1 \in Places : sc' = [stage |-> 1,
                sc' = [stage |-> 2, fam |-> "shape", sh |-> sc.sh, f |-> ShapeOf(sc.sh, sc.p1, p2, p3, q, s)]
         \/ sc.stage = 0 /\ \E ft \in Faults, q \in BOOLEAN : sc' = [stage |-> 2, fam |-> "fault", fault |-> ft, quoted |-> q]
         \/ sc.stage = 0 /\ \E p1 \in Places, q \in BOOLEAN, s \in Seps : sc' = [stage |-> 2, fam |-> "a2ml", place |-> p1, quoted |-> q, sep |-> s]
+        \* include files with a comment between their elements (comments are module children of their own)
+        \/ sc.stage = 0 /\ \E sh \in {"first_last", "only_inc", "sibling_nested", "nested2"} :
+               sc' = [stage |-> 2, fam |-> "shape", sh |-> sh, f |-> ShapeOf(sh, "same", "sub", "same", TRUE, "/"), cmt |-> TRUE]
         \* the include file in another text encoding than the main file (the loader decodes every file on its own)
         \/ sc.stage = 0 /\ \E enc \in {"utf8bom", "utf16le_bom", "utf16be_bom", "utf32le_bom", "utf16le"} :
                sc' = [stage |-> 2, fam |-> "shape", sh |-> "flat1", f |-> ShapeOf("flat1", "same", "same", "same", TRUE, "/"), enc |-> enc]
@@ -50,6 +53,7 @@ ImplOK == (sc.stage = 2 /\ sc.fam = "shape") => (ReloadEqualImpl(sc.f) /\ (sc.sh
 Emit == sc.stage = 2 =>
           IF sc.fam = "shape"
           THEN PrintT(<<"CASE", ToJson([fam |-> "shape", sh |-> sc.sh, f |-> sc.f, flat |-> Flatten(sc.f), main |-> MainItems(sc.f),
-                                        enc |-> IF "enc" \in DOMAIN sc THEN sc.enc ELSE "utf8"])>>)
+                                        enc |-> IF "enc" \in DOMAIN sc THEN sc.enc ELSE "utf8",
+                                        cmt |-> "cmt" \in DOMAIN sc])>>)
           ELSE PrintT(<<"CASE", ToJson(sc)>>)
 =============================================================================
